@@ -189,6 +189,7 @@ type analyzer struct {
 	named      []*types.Named
 	ifaceCache map[string][]*node
 	unknown    []string
+	fieldKinds map[string]string   // field key -> map | slice | pointer | other
 	goConds    map[string][]string // callee key -> canonical conditions of the enclosing ifs of a go statement calling it
 }
 
@@ -559,7 +560,20 @@ func (a *analyzer) fieldKey(p *packages.Package, se *ast.SelectorExpr, anyOwner 
 			return ""
 		}
 	}
-	return owner + "." + fv.Name()
+	k := owner + "." + fv.Name()
+	if _, ok := a.fieldKinds[k]; !ok {
+		switch fv.Type().Underlying().(type) {
+		case *types.Map:
+			a.fieldKinds[k] = "map"
+		case *types.Slice:
+			a.fieldKinds[k] = "slice"
+		case *types.Pointer:
+			a.fieldKinds[k] = "pointer"
+		default:
+			a.fieldKinds[k] = "other"
+		}
+	}
+	return k
 }
 
 // ---------------------------------------------------------------- per-function analysis
@@ -1204,7 +1218,7 @@ func main() {
 	sort.Slice(pkgs, func(i, j int) bool { return pkgs[i].PkgPath < pkgs[j].PkgPath })
 	a := &analyzer{fset: pkgs[0].Fset, pkgs: pkgs, byFunc: map[*types.Func]*node{}, byLit: map[*ast.FuncLit]*node{},
 		byKey: map[string]*node{}, fieldFuncs: map[*types.Var][]*node{}, litsIn: map[string][]*node{},
-		ifaceCache: map[string][]*node{}, goConds: map[string][]string{}, unknown: []string{}}
+		ifaceCache: map[string][]*node{}, goConds: map[string][]string{}, unknown: []string{}, fieldKinds: map[string]string{}}
 	a.index()
 
 	col := &collector{a: a, rows: map[string]*rowOut{}, seen: map[string]bool{}}
@@ -1332,7 +1346,7 @@ func main() {
 		}
 	}
 	js, _ := json.MarshalIndent(map[string]any{"entries": eouts, "rows": rows, "unknown": a.unknown,
-		"functions_indexed": len(a.byKey), "owner_types": ownerTypes}, "", " ")
+		"functions_indexed": len(a.byKey), "owner_types": ownerTypes, "field_kinds": a.fieldKinds}, "", " ")
 	if *outJ != "" {
 		if err := os.WriteFile(*outJ, js, 0o644); err != nil {
 			fmt.Fprintln(os.Stderr, err)
